@@ -196,6 +196,8 @@ def main(argv):
     if "--workers" in rest:
         workers = int(rest[rest.index("--workers") + 1])
     t0 = time.time()
+    import shutil
+    shutil.rmtree(os.path.join(ROOT, "replays", pid), ignore_errors=True)  # replays of earlier runs are stale
     mod = importlib.import_module(f"mc.props.{pid}")
     cases = mod.enumerate_cases(tier, seed)
     ids = [c["id"] for c in cases]
